@@ -48,7 +48,13 @@ RULE = (
     ">= 3 positions (first call, middle, last call); pipelines "
     "(evaluate and transform) of 1-3 transformers + a decision maker; classes made by mkagg / mktransformer (with and "
     "without hyper-parameters); RankInvariantChecker (fixed seed, repeat 1-2, both strategies) over TOPSIS / RatioMOORA / a "
-    "pipeline.  Thorough adds, per spec, ALL sequences of length <= 4 over a pool of 3 matrices (one refused).  "
+    "pipeline; and in EVERY run (>= 18 quick) histories for a RankInvariantChecker with an INTEGER seed in which a call RAISES "
+    "MIDWAY - after the noise of at least one alternative has been drawn - followed by an accepted probe: (a) a matrix whose two "
+    "last-ranked alternatives are the same dominated row (the second-to-last has no room: refused after all the others but the "
+    "best were worsened), (b) WeightedSumModel (alone / behind SumScaler) on a matrix whose worst row is all zeros (its worsening "
+    "goes below 0 and the decision maker rejects the mutant), (c) FilterGE / FilterLE + TOPSIS / RatioMOORA with "
+    "allow_missing_alternatives=False and the threshold at the worst row's own value (its worsening drops it); the failing "
+    "matrix is fed once or twice, the probe sits at position 0 (70%), right after the failing call and at the end.  Thorough adds, per spec, ALL sequences of length <= 4 over a pool of 3 matrices (one refused).  "
     "Non-trivial: >= 2 successful calls on >= 2 different matrices and the probe at >= 2 positions; distinct by case hash."
 )
 ASSUMPTIONS = [
@@ -273,6 +279,111 @@ def random_ric_spec(rng):
                                              {"k": "agg", "spec": {"name": "TOPSIS", "metric": "cityblock"}}]}])
     return {"k": "ric", "dmaker": dm, "repeat": rng.choice([1, 1, 2]), "seed": rng.randint(0, 2 ** 31 - 1),
             "strategy": rng.choice(["median", "mean"]), "allow_missing": rng.random() < 0.3}
+
+
+MIDWAY = ["dup-worst", "neg-push", "dropped"]
+
+
+def _dominated_row(mc, factor=2.0):
+    """a row strictly worse than every row of `mc` on every criterion (positive data)"""
+    row = []
+    for j, o in enumerate(mc["objectives"]):
+        col = [r[j] for r in mc["matrix"]]
+        row.append(min(col) / factor if o == 1 else max(col) * factor + 1.0)
+    return row
+
+
+def _clear_of_filter(mc, j, flt):
+    """move criterion j of an accepted matrix so far inside the filter that no bounded worsening can cross the threshold"""
+    col = [r[j] for r in mc["matrix"]]
+    lo, hi = min(col), max(col)
+    if flt["cls"] == "FilterGE":
+        off = max(0.0, flt["thr"] + (hi - lo) + 1.0 - lo)
+        for r in mc["matrix"]:
+            r[j] = r[j] + off
+    else:
+        f = 0.9 * flt["thr"] / (2.0 * hi + 1.0)
+        if f < 1.0:
+            for r in mc["matrix"]:
+                r[j] = r[j] * f
+    return mc
+
+
+def _clear_of_zero(mc):
+    """lift every criterion of an accepted matrix so far above 0 that no bounded worsening (at most the column's range)
+    can reach it"""
+    for j in range(len(mc["matrix"][0])):
+        col = [r[j] for r in mc["matrix"]]
+        off = max(0.0, (max(col) - min(col)) + 1.0 - min(col))
+        for r in mc["matrix"]:
+            r[j] = r[j] + off
+    return mc
+
+
+def gen_midway_case(rng, how=None):
+    """a history for a seeded RankInvariantChecker in which one call raises AFTER random numbers were drawn for at least one
+    alternative, followed by an accepted probe (see RULE)"""
+    how = how or rng.choice(MIDWAY)
+    topsis = {"k": "agg", "spec": {"name": "TOPSIS", "metric": rng.choice(["euclidean", "cityblock"])}}
+    moora = {"k": "agg", "spec": {"name": "RatioMOORA"}}
+    scaled = {"k": "pipe", "steps": [{"k": "tr", "cls": "SumScaler", "kw": {"target": "both"}}, topsis]}
+    allow = rng.random() < 0.4
+    if how == "dup-worst":
+        dmaker = rng.choice([topsis, moora, scaled])
+    elif how == "neg-push":
+        wsm = {"k": "agg", "spec": {"name": "WSM"}}
+        dmaker = rng.choice([wsm, {"k": "pipe", "steps": [{"k": "tr", "cls": "SumScaler", "kw": {"target": "both"}}, wsm]}])
+    else:
+        dmaker = None  # needs the failing matrix first
+        allow = False
+    spec = {"k": "ric", "dmaker": dmaker or topsis, "repeat": rng.choice([1, 1, 2]), "seed": rng.choice([0, 1, rng.randint(0, 2 ** 31 - 1)]),
+            "strategy": rng.choice(["median", "mean"]), "allow_missing": allow}
+    n = rng.randint(2, 3)
+    bad = in_domain(rng, spec, m=rng.randint(4, 5), n=n)
+    bad["criteria"] = CRITS[:n]
+    mx = bad["matrix"]
+    flt = None
+    if how == "dup-worst":
+        i, p = rng.sample(range(len(mx)), 2)
+        mx[i] = _dominated_row(bad)
+        mx[p] = list(mx[i])
+    elif how == "neg-push":
+        mx[rng.randrange(len(mx))] = [0.0] * n
+    else:
+        i = rng.randrange(len(mx))
+        mx[i] = _dominated_row(bad)
+        j = rng.randrange(n)
+        flt = {"cls": "FilterGE" if bad["objectives"][j] == 1 else "FilterLE", "thr": mx[i][j]}
+        spec["dmaker"] = {"k": "pipe", "steps": [{"k": "tr", "cls": flt["cls"], "kw": {"criteria_filters": {CRITS[j]: flt["thr"]}}},
+                                                 rng.choice([topsis, moora])]}
+    bad["ood"] = "midway:" + how
+    good = []
+    for _ in range(2):
+        g = in_domain(rng, spec, m=rng.randint(3, 5), n=n if flt or rng.random() < 0.5 else None)
+        g["criteria"] = CRITS[: len(g["matrix"][0])]
+        if flt:
+            _clear_of_filter(g, j, flt)
+        if how == "neg-push":
+            _clear_of_zero(g)
+        good.append(g)
+    pool = [good[0], bad, good[1]]
+    if rng.random() < 0.4:
+        pool.append(out_of_domain(rng, spec))
+        if "matrix" in pool[-1]:
+            pool[-1]["criteria"] = CRITS[: len(pool[-1]["matrix"][0])]
+    # the probe, [the failing call, the probe] once or twice, other members around
+    hist = [1]
+    if rng.random() < 0.5:
+        hist = [rng.randrange(len(pool))] + hist
+    after = len(hist)  # a probe right after the failing call
+    tail = [2] + [rng.choice([1, 2, len(pool) - 1]) for _ in range(rng.randint(0, 1))]  # another accepted matrix, always
+    rng.shuffle(tail)
+    hist = hist + tail
+    positions = {after, len(hist)}
+    if rng.random() < 0.7:
+        positions.add(0)
+    return {"kind": "hist", "spec": spec, "pool": pool, "hist": hist, "probe": 0, "positions": sorted(positions),
+            "reuse_dm": rng.random() < 0.5, "midway": how}
 
 
 def random_user_spec(rng):
@@ -847,6 +958,11 @@ def gen(ctx, search=False):
         specs.extend(spec_round(rng))
     for spec in specs[:n]:
         cases.append(gen_hist_case(rng, spec))
+    # a call that raises midway (random numbers already drawn) followed by an accepted probe: every way, every run
+    n_mid = 120 if search else ctx.n(18, 150)
+    step = max(1, len(cases) // n_mid)
+    for t in range(n_mid):
+        cases.insert(min(len(cases), 2 + t * (step + 1)), gen_midway_case(rng, MIDWAY[t % len(MIDWAY)]))
     if ctx.thorough and not search:
         # every sequence of length <= 4 over a pool of three matrices (two accepted, of different shape; one refused)
         for spec in spec_round(rng):
@@ -1055,6 +1171,11 @@ def tags(case, obs):
         if "err" in obs["outs"][obs["at"][0]]:
             t.append("probe-raises")
         t.append("reuse-dm" if case.get("reuse_dm") else "new-dm-per-call")
+        if case.get("midway"):
+            k_bad = [k for k, (i, o) in enumerate(zip(obs["seq"], obs["outs"])) if "err" in o and
+                     str(case["pool"][i].get("ood", "")).startswith("midway:")]
+            later = [k for k in obs["at"] if k_bad and k > k_bad[0] and "ok" in obs["outs"][k]]
+            t.append("raised-midway:" + case["midway"] + (":then-probe-accepted" if later else ":NOT-as-intended"))
         if _draws(case["spec"]):
             n_ok = sum(1 for k in obs["at"] if "ok" in obs["outs"][k])
             t.append("seeded-and-drawing:" + spec_name(case["spec"]).split("(")[0] + ":probe-ok-at-%s-positions" % ("3+" if n_ok >= 3 else n_ok))
